@@ -105,4 +105,38 @@ Section WaveletWf.
       + apply bdiag_wf; [apply IH; lia|apply idop_wf].
       + apply dwt2_wf; assumption.
   Qed.
+  Lemma band3_wf L n1 n2 n3 (fa ga fb gb fc gc : vec) : (2 <= L)%nat -> (1 <= n1)%nat -> (1 <= n2)%nat -> (1 <= n3)%nat ->
+    wf (band3_op L n1 n2 n3 fa ga fb gb fc gc).
+  Proof.
+    intros HL H1 H2 H3. pose proof (wlen_pos L n1 HL H1). pose proof (wlen_pos L n2 HL H2). pose proof (wlen_pos L n3 HL H3).
+    unfold band3_op. cbv zeta. apply comp_wf.
+    - cbn [along comp dom ran band_op]. ring.
+    - apply along_wf; cbn [band_op dom ran]; try nia. apply band_wf.
+    - apply comp_wf.
+      + cbn [along dom ran band_op]. ring.
+      + apply along_wf; cbn [band_op dom ran]; try lia. apply band_wf.
+      + apply along_wf; cbn [band_op dom ran]; try lia. apply band_wf.
+  Qed.
+
+  Theorem dwt3_wf L n1 n2 n3 (flo fhi glo ghi : vec) : (2 <= L)%nat -> (1 <= n1)%nat -> (1 <= n2)%nat -> (1 <= n3)%nat ->
+    wf (dwt3 L n1 n2 n3 flo fhi glo ghi).
+  Proof.
+    intros HL H1 H2 H3. unfold dwt3. cbv zeta.
+    repeat (apply vstack_wf; [reflexivity|apply band3_wf; assumption|]). apply band3_wf; assumption.
+  Qed.
+
+  Lemma wavedec3_dom' level L n1 n2 n3 (flo fhi glo ghi : vec) :
+    dom (wavedec3_op level L n1 n2 n3 flo fhi glo ghi) = ((n1 * n2) * (n3 * 1))%nat.
+  Proof. destruct level; reflexivity. Qed.
+
+  Theorem wavedec3_wf level : forall L n1 n2 n3 (flo fhi glo ghi : vec), (2 <= L)%nat -> (1 <= n1)%nat -> (1 <= n2)%nat -> (1 <= n3)%nat ->
+    wf (wavedec3_op level L n1 n2 n3 flo fhi glo ghi).
+  Proof.
+    induction level as [|l IH]; intros L n1 n2 n3 flo fhi glo ghi HL H1 H2 H3; cbn [wavedec3_op].
+    - apply idop_wf.
+    - cbv zeta. pose proof (wlen_pos L n1 HL H1). pose proof (wlen_pos L n2 HL H2). pose proof (wlen_pos L n3 HL H3). apply comp_wf.
+      + cbn [bdiag dom idop]. rewrite wavedec3_dom'. unfold dwt3, band3_op. cbn [vstack comp along ran dom band_op]. ring.
+      + apply bdiag_wf; [apply IH; lia|apply idop_wf].
+      + apply dwt3_wf; assumption.
+  Qed.
 End WaveletWf.
